@@ -116,7 +116,7 @@ CHECKS["C08"] = dict(_db("c08", 64, 3200, "a query with WHERE over stored dims d
           "the real goexpr on each point's stored key as an oracle column; 4 queries per history. non-trivial: >= 3 points"))
 CHECKS["C03"] = dict(_db("c03", 64, 3200, "a memstore-inclusive query depends on the flush/restart schedule, or a disk-only query after a flush differs from the memstore-inclusive one"),
     rule=("as C01 with schedules none / every k-th insert / random / dense (>10 flushes, so the every-10th re-encoding flush runs) / "
-          "flushes with clean close+reopen; queries: SELECT * and a named field subset with the memstore, and after a final flush the same two "
+          "flushes with clean close+reopen / restart-heavy schedules on tables with a WHERE (offset-file path); a third of the cases with a memory cap configured so that forced flushes are sorted (emsort); queries: SELECT * and a named field subset with the memstore, and after a final flush the same two "
           "disk-only; every run is compared with the schedule-independent reference (so all schedules agree with each other). "
           "non-trivial: >= 3 points"))
 
